@@ -57,6 +57,15 @@ class Index:
             self._walk(package, prefix, path + [n.name], n)
 
 
+def resolve_hints(cls) -> Dict[str, Any]:
+    """Resolved type hints of a generated class through the public typing API (the module's
+    globals are where forward references such as "pkg__.Type" live)."""
+    import sys
+
+    mod = sys.modules.get(cls.__module__)
+    return typing.get_type_hints(cls, vars(mod) if mod is not None else None, {})
+
+
 def class_name(path: List[str]) -> str:
     from betterproto.compile.naming import pythonize_class_name
 
@@ -209,7 +218,7 @@ class Matcher:
     def check_fields(self, cls, prefix, where, m):
         try:
             fields = dataclasses.fields(cls)
-            hints = cls._type_hints()
+            hints = resolve_hints(cls)
         except Exception as e:
             self.bad("hints-unresolvable", where, f"{type(e).__name__}: {e}")
             return
